@@ -183,7 +183,7 @@ def conditions(tier):
                     continue
                 if not thorough and op == "client3" and n == 3:
                     continue  # 1 200-2 400 paths (5-10 min); thorough only
-                out.append(Condition(f"step/{rule}/{n}/{op}", make_condition(step(rule, n, op), 0, 3, n + 4),
+                out.append(Condition(f"step/{rule}/{n}/{op}", make_condition(step(rule, n, op), 0, 3, 2 * n + 3),
                                      about=f"{rule}, {n} switches, arbitrary valid pre-state, one {op} operation",
                                      encodes=ENC, bounds=f"{n} switches", timeout=600))
         # k operations multiply: 57 choices per step with all five kinds
